@@ -23,13 +23,12 @@ EXPLANATION = (
     "delegates; (LIMIT) for_each hands self.concurrency_limit() to ForEachConsumer::new; sibling agreement of every "
     "concurrency_limit impl (Limit returns its own field, FromStream None, others delegate); (OWN) the group is held by value. "
     "Together: live closure futures <= group members = count <= limit at every suspension point (argued, not measured).")
-EXPLANATION += (' (GROUP) premise re-checked here: the FutureGroup in which the closure futures are parked registers every pushed future completely (insert_pinned), polls every armed member, yields each output exactly once and reports None only when empty.')
+EXPLANATION += (" (LIMIT) Limit::new stores the requested limit unchanged and ConcurrentStream::limit builds Limit::new(self, limit): stacked limits cannot loosen each other.")
 ASSUMPTIONS = [
     "futures_buffered::FuturesUnordered: every pushed future is polled until Ready and yielded by next() exactly once; next() -> None iff empty",
     "Ordering::Relaxed on a counter touched only from the single task that owns the consumer",
 ]
 RULES = {
-    "C13.GROUP": "premise: the FutureGroup holding the closure futures registers every pushed future (insert_pinned), polls every armed member, yields each output exactly once and None only when empty",
     "C13.BP": "send: push only on the count < limit exit of the back-pressure loop (body awaits group.next()); fetch_add(1) and push once each; pushed future wraps the given item future; limit/count constructor values",
     "C13.DEC": "ForEachFut::poll: fetch_sub(1) once, on the closure future's Ready edge, with done := true; counter incremented only in send",
     "C13.CALL": "closure invoked only on the item future's Ready edge with that item; fut_t := None, fut_b := Some(result)",
@@ -46,9 +45,6 @@ def run(ctx):
     for cfg in ctx.configs:
         ctx.current_config = cfg
         M = ctx.model(cfg)
-        from . import c11 as _c11
-        _c11.premises(ctx, M, "C13.GROUP")
-        ctx.floor("C13.GROUP", cfg, 40)
         rule_bp(ctx, M, "ForEachConsumer", "ForEachFut", "C13.BP")
         rule_dec_call(ctx, M, "ForEachFut", "C13.DEC", "C13.CALL")
         rule_flush(ctx, M, "ForEachConsumer", "C13.FLUSH")
